@@ -96,6 +96,19 @@ CLAIMS = {
              "bounded stand-in; identifier characters = word characters and `$`.",
         technique="VC generation (pyvc) + z3/cvc5 for the range/strip functions; exhaustive lemma with the real re; structural obligations",
         design="3/C06"),
+    "C09": dict(
+        text="Safety obligations (mode S) over the nine position-based handlers, get_definition and their nested "
+             "helpers: from a class table rebuilt from the source, every attribute access on a value whose possible "
+             "classes are known is defined for each class and no possibly-None value is dereferenced without a "
+             "dominating check (flow-sensitive narrowing on is None / isinstance / get_type()); get_definition's result "
+             "signature is checked against its return statements; call sites pass a non-None file. Coordinates: add_error "
+             "clamping and _create_ref_link are VCs (mode F). The native sweep (tens of thousands of positional requests, "
+             "quick tier; ~380k thorough) is the bounded stand-in for index errors in string helpers.",
+        note="Values of unknown class are not checked (count in the evidence); hints: FortranFile.ast set before a "
+             "file enters the workspace, Intrinsic.get_type in {2,3,14,15} (checked exhaustively on the bundled tables). "
+             "IndexError/KeyError freedom of the string scanners is only covered by the sweep.",
+        technique="class-flow safety obligations over the AST (pyvc mode S) + VCs for coordinate functions; native sweep as bounded stand-in",
+        design="3/C09"),
 }
 
 NOT_APPLICABLE = {
